@@ -197,6 +197,9 @@ func MannWhitneyUTest(x1, x2 []float64, alt LocationHypothesis) (*MannWhitneyUTe
 		case LocationGreater:
 			p = 1 - dist.CDF(U1-0.5)
 		}
+		// Doubling a tail, or rounding in the summed distribution,
+		// can carry p marginally outside [0, 1].
+		p = math.Max(0, math.Min(1, p))
 	} else {
 		// Use normal approximation (with tie and continuity
 		// correction).
